@@ -327,6 +327,55 @@ func rampSuite(seqLen int) hlib.Suite {
 	}}
 }
 
+// calculatorSuite: the exported calculator itself (ParseStages + NewRateCalculator): its
+// total duration stays the sum of all stage durations however far it has been
+// queried, and targets mean what they spell (a zero-padded number is decimal).
+func calculatorSuite() hlib.Suite {
+	return hlib.Suite{Name: "staged/calculator-api/duration-after-queries+target-spellings", Run: func(r *hlib.Rec) {
+		for _, str := range []string{"10s:5,20s:5,30s:0", "0s:3,1s:7", "1s:2", "0s:0,500ms:10,0s:4,2s:4"} {
+			r.Eval()
+			stages, err := staged.ParseStages(str)
+			if err != nil {
+				r.Fail("C10/harness", "parse", err.Error(), str)
+				continue
+			}
+			var total time.Duration
+			for _, s := range stages {
+				total += s.Duration
+			}
+			start := t0
+			calc := staged.NewRateCalculator(stages, &start)
+			for k := 0; k <= 12; k++ {
+				at := time.Duration(int64(total) / 8 * int64(k))
+				calc.Rate(t0.Add(at))
+				r.Step()
+				if d := calc.MaxDuration(); d != total {
+					r.Fail("C10/staged-duration", "changes-with-queries", fmt.Sprintf("after a query at +%s the calculator reports a total duration of %s, the stages sum to %s", at, d, total), str)
+					break
+				}
+			}
+			r.Distinct(str)
+		}
+		for _, tc := range []struct {
+			str  string
+			want []int
+		}{{"10s:010", []int{10}}, {"0s:007,10s:0100", []int{7, 100}}, {"1s:08", []int{8}}, {"1s:00", []int{0}}, {"1s:0012,1s:012", []int{12, 12}}} {
+			r.Eval()
+			stages, err := staged.ParseStages(tc.str)
+			if err != nil {
+				r.Distinct("rejected " + tc.str) // rejecting is allowed; a different number is not
+				continue
+			}
+			for i, s := range stages {
+				if i < len(tc.want) && s.EndTarget != tc.want[i] {
+					r.Fail("C10/staged-target", "not-what-it-spells", fmt.Sprintf("stage %d of %q has target %v, it spells %d", i, tc.str, s.EndTarget, tc.want[i]), tc.str)
+				}
+			}
+			r.Distinct("accepted " + tc.str)
+		}
+	}}
+}
+
 // largeSuite: long and steep profiles (hours to weeks, up to 10^9 per tick):
 // nanoseconds times rate differences do not fit 64 bits.
 func largeSuite() hlib.Suite {
@@ -383,9 +432,9 @@ func largeSuite() hlib.Suite {
 
 func suites(tier string) []hlib.Suite {
 	if tier == "quick" {
-		return []hlib.Suite{stagedSuite(2, 2, false), stagedSuite(2, 2, true), stagedSuite(3, 1, false), rampSuite(2), largeSuite()}
+		return []hlib.Suite{stagedSuite(2, 2, false), stagedSuite(2, 2, true), stagedSuite(3, 1, false), rampSuite(2), largeSuite(), calculatorSuite()}
 	}
-	return []hlib.Suite{stagedSuite(3, 2, false), stagedSuite(3, 2, true), stagedSuite(2, 3, false), stagedSuite(2, 3, true), stagedSuite(4, 1, false), stagedSuite(3, 3, true), rampSuite(3), largeSuite()}
+	return []hlib.Suite{stagedSuite(3, 2, false), stagedSuite(3, 2, true), stagedSuite(2, 3, false), stagedSuite(2, 3, true), stagedSuite(4, 1, false), stagedSuite(3, 3, true), rampSuite(3), largeSuite(), calculatorSuite()}
 }
 
 func main() { hlib.EnumMain("C10", suites) }
